@@ -466,5 +466,6 @@ LEVEL_TEXT = ("Lean 4 theorems: every operation of the Frame model refines a ref
               "differential execution for small widths and sampled histories up to width 256.")
 LEVEL_NOTE = ("Trusted: Lean kernel; axioms propext/Classical.choice/Quot.sound; the hand-written model "
               "Model/Frame.lean corresponds to dali/frame.py only as far as the correspondence suite exercises it "
-              "(exhaustive for widths <= 5/7, sampled beyond); Python int semantics.")
-TECHNIQUE = "Lean 4 refinement proof (model -> list-of-bits spec, induction over histories) + exhaustive/sampled model-vs-code correspondence"
+              "(exhaustive for widths <= 5/7, sampled beyond); Python int semantics."
+              " The ten integer-only operations of dali/frame.py are in addition re-translated from the source on every run and proved equal to the model for every frame and all integers (Tie/Frame.lean); non-integer operands, pack/pack_len/str stay on the differential tie.")
+TECHNIQUE = "Lean 4 refinement proof (model -> list-of-bits spec, induction over histories) + exhaustive/sampled model-vs-code correspondence + source translation tie (Tie/Frame: the integer operations of dali/frame.py re-translated on every run and proved equal to the model)"
